@@ -49,6 +49,7 @@ ClassShapes(tier) ==
   { Shape("class", TRUE, f) : f \in { {}, {"pmiss"}, {"tuple"}, {"variadic"}, {"multi"}, {"multi", "pmiss"}, {"set", "setmulti"}, {"unknownvalue"},
                                        {"tuple", "@tpbound"}, {"set", "@tpbound"}, {"tuple", "@tpbound", "@invariant"},      \* an invariant bounded parameter: the stub shows the parameter without its bound
                                        {"multi", "@abc"},      \* the class also lists abc.ABC
+                                       {"variadic", "pmiss", "@abconly"}, {"tuple", "@abconly"},   \* the class lists abc.ABC only: it is written without constructor, so the constructor's constructs need no marker
                                        {"multi", "@privbase"}, {"multi", "@privfirst"} } }   \* a private base with an inherited public method, after / before the public bases      \* "@tpbound": the construct sits in the bound of a type parameter
   \cup { Shape("class", FALSE, {"pmiss", "multi"}) }
 
@@ -115,7 +116,7 @@ Judge(obs) ==
         shown == ToSet(obs.shown)
         todos == ToSet(obs.todos) \cap Listed
         prev == ToSet(obs.prev)
-        exp == (f \cap ScenarioKinds) \cup (shown \cap ShownKinds)
+        exp == (IF "@abconly" \in f THEN {} ELSE f \cap ScenarioKinds) \cup (shown \cap ShownKinds)
         miss == exp \ todos
         extra == todos \ exp
         tag == IF "@kwcall" \in f THEN ":default-is-a-call" ELSE IF "@poscall" \in f THEN ":default-is-a-constant" ELSE ""
